@@ -32,7 +32,7 @@ pub fn replay(kind: &str, case: &Value) -> Result<(), String> {
 pub fn run(args: &Args) -> i32 {
     let run = Run::new(args, "model_checking");
     let plan: Vec<(&str, usize, u32, f64)> = match args.tier {
-        Tier::Quick => vec![("tiny", 12, 1, 45.0)],
+        Tier::Quick => vec![("tiny", 12, 1, 36.0)],
         Tier::Thorough => vec![("small", 12, 1, 300.0), ("mid", 10, 1, 500.0)],
     };
     run.set_rule(
